@@ -697,6 +697,17 @@ theorem var_type_origin_const (ws base targs ptr : Str) (hS : ∀ c ∈ ws, Rege
     varTypeOrigin (constBlank ++ (ws ++ (base ++ (targs ++ ptr)))) = .ok base :=
   varTypeOrigin_const ws base targs ptr hS hb hW hr
 
+/-- … and on EVERY text: `var_type_origin` equals the direct reading `varTypeOriginSpec` — on the regex branch the name is the
+    longest run of `[A-Za-z0-9_:]` behind `const` + white space when a name follows there (the optional group is taken with
+    all its white space), else at the very start (the group is given back: `const *` gives `const`), and `TypeError` (`None[2]`)
+    when no name character stands there; the generated regular expression, run by the backtracking matcher, reads exactly
+    that. (ASCII; `\w`/`\s` of other characters are outside the model.) -/
+theorem var_type_origin_spec (s : Str) : varTypeOrigin s = varTypeOriginSpec s := varTypeOrigin_spec s
+
+example : varTypeOriginSpec ['c', 'o', 'n', 's', 't', ' ', '*'] = .ok ['c', 'o', 'n', 's', 't'] ∧
+    varTypeOriginSpec ['c', 'o', 'n', 's', 't', ' ', ' ', 'x', '<', 'y', '*'] = .ok ['x'] ∧
+    varTypeOriginSpec ['&'] = .error .TypeError ∧ varTypeOriginSpec ['a', ' ', 'b', '<', 'c'] = .ok ['a', ' ', 'b'] := by decide
+
 /-- non-vacuity: `const  Box::Item&`, `std::map<std::string, int>`, `int*`; and outside the shape: `*` has no name (`None[2]`) -/
 example :
     typeRest [] ['&'] ∧ typeRest ['<', 'i', 'n', 't', '>'] [] ∧
